@@ -442,7 +442,7 @@ def run_world(ctx):
         with open(wd + '/BallWorldTraceT.tla', 'w') as f:
             f.write('---- MODULE BallWorldTraceT ----\nEXTENDS BallWorldTrace, BallWorldMCDefs\n====\n')
         v = tlc.validate_traces(wd, 'BallWorldTraceT', 'Trace.cfg', traces)
-        tlc.finish_diagnosis(wd, 'BallWorldTraceT', 'Trace.cfg', traces, v, limit=60)
+        tlc.finish_diagnosis(wd, "BallWorldTraceT", "Trace.cfg", traces, v)
         ctx.add_trace_verdict('BallWorldTrace(%s)' % topo, v, len(traces))
         over = [i for i, t in enumerate(traces) if any(e.get('op') == 'rest' and e.get('_over', 0) > 0 for e in t['ev'])]
         if over:
